@@ -24,6 +24,10 @@ pub struct SynthSpec {
     /// entry shape (see Arena::put_shaped): plain, jmp rel32 / jmp short forwarder, endbr64, indirect thunk
     #[serde(default)]
     pub shape: u8,
+    /// byte offset 0..15 added to the slot address: targets (and their neighbours) that are not
+    /// 16- or even 8-byte aligned, and entries in the very last bytes of a page
+    #[serde(default)]
+    pub fine: u8,
 }
 
 #[derive(Serialize, Deserialize, Clone, Debug, Hash, PartialEq, Eq)]
@@ -213,7 +217,7 @@ pub fn execute(c: &HistCase, opts: &Opts) -> HistObs {
         };
         // function slots at 16-byte pitch; the target is slot-aligned here so that both
         // neighbours at +/-16 are live functions (C03), incl. the last slot of the first page
-        let off = (s.off as usize % PAGE) & !0xF;
+        let off = ((s.off as usize % PAGE) & !0xF) + (s.fine as usize % 16);
         let addr = base + off;
         for k in 1..=3usize {
             if addr >= base + 16 * k {
@@ -230,7 +234,7 @@ pub fn execute(c: &HistCase, opts: &Opts) -> HistObs {
         o.arena_pages.push((base + PAGE) as u64);
         arenas.push(a);
         tg.push(targets::synthetic_target(addr, if s.boolean { Class::B } else { Class::U }, id as u64, format!("synth{i}@{addr:#x}")));
-        last_slot.push(off == PAGE - 16);
+        last_slot.push(off >= PAGE - 16);
     }
     let n = tg.len();
     let pristine: Vec<Vec<u8>> = tg.iter().map(|t| crate::worker::pristine_of(t.addr).unwrap_or_else(|| crate::mem::read_direct(t.addr, 32))).collect();
@@ -431,7 +435,8 @@ pub fn strategy(max_lifetimes: usize, max_steps: usize, synth_bias_last_slot: bo
         prop_oneof![3 => 0u16..0x1000, 1 => Just(0xFF0u16)].boxed()
     };
     let shape = prop_oneof![3 => Just(0u8), 2 => Just(1u8), 1 => Just(2u8), 1 => Just(3u8), 1 => Just(4u8)];
-    let synth = prop::collection::vec((0u8..5, any::<u64>(), off, prop::bool::weighted(0.3), shape).prop_map(|(class, page, off, boolean, shape)| SynthSpec { class, page, off: if shape % 5 == 0 { off } else { off.min(0xF80) }, boolean, shape }), 0..=3);
+    let fine = prop_oneof![3 => Just(0u8), 2 => 1u8..16, 1 => 11u8..16];
+    let synth = prop::collection::vec((0u8..5, any::<u64>(), off, prop::bool::weighted(0.3), shape, fine).prop_map(|(class, page, off, boolean, shape, fine)| SynthSpec { class, page, off: if shape % 5 == 0 { off } else { off.min(0xF80) }, boolean, shape, fine }), 0..=3);
     // few targets so that repetition on one target is common
     let step = prop_oneof![
         3 => (0u8..12, kind_strategy(), 0u8..4).prop_map(|(t, kind, k)| Step::Install { t, kind, k }),
